@@ -15,7 +15,7 @@ IsOk(r) == regs[r].st = "ok"
 Alloc(r) == regs[r].st # "none"
 Ks == {B, 2 * B, 3 * B, 5 * B, KMax - B, KMax}
 Step(op, d, a, b, bits, rot, k, ld, plb, vec) ==
-  [op |-> op, d |-> d, a |-> a, b |-> b, bits |-> bits, rot |-> rot, k |-> k, ld |-> ld, plb |-> plb, vec |-> vec, pld |-> 0, pplb |-> 0, pmag |-> 0, cst |-> 0, c |-> 0, pb |-> B]
+  [op |-> op, d |-> d, a |-> a, b |-> b, bits |-> bits, rot |-> rot, k |-> k, ld |-> ld, plb |-> plb, vec |-> vec, pld |-> 0, pplb |-> 0, pmag |-> 0, cst |-> 0, c |-> 0, pb |-> B, kz |-> 0]
 \* a step with a plaintext operand of precision (pld, pplb): a test vector (|v| <= 1) or a constant of the harness' table (|c| < 2)
 PStep(op, d, a, b, vec, cst, pld, pplb, isc) == [Step(op, d, a, b, 0, 0, 0, 0, 0, vec) EXCEPT !.pld = pld, !.pplb = pplb, !.pmag = IF isc THEN 1 ELSE 0, !.cst = cst]
 Plds == {12, 20, 30, 40}
@@ -67,6 +67,28 @@ PtZnx == \/ \E op \in {"add_ptz_into", "sub_ptz_into", "mul_ptz_into"}, d, a \in
               /\ Do([PStep(op, d, a, 0, v, 0, pld, pplb, FALSE) EXCEPT !.pb = pb])
          \/ \E op \in {"add_ptz_assign", "sub_ptz_assign"}, d \in Regs, pld \in Plds, pplb \in Pplbs, v \in 0..1, pb \in {B, B - 1} :
               /\ IsOk(d) /\ Do([PStep(op, d, d, 0, v, 0, pld, pplb, FALSE) EXCEPT !.pb = pb])
+\* more limb-form operands: vector products in place and fused, constants in limb form (add / sub / mul / fused)
+PtZnx2 == \/ \E op \in {"mul_ptz_assign"}, d \in Regs, pld \in Plds, pplb \in Pplbs, v \in 0..1, pb \in {B, B - 1} :
+               /\ IsOk(d) /\ (LastStep \/ NoSpare(d)) /\ Do([PStep(op, d, d, 0, v, 0, pld, pplb, FALSE) EXCEPT !.pb = pb])
+          \/ \E op \in {"mul_add_ptz", "mul_sub_ptz"}, d, a \in Regs, pld \in Plds, pplb \in Pplbs, v \in 0..1, pb \in {B, B - 1} :
+               /\ IsOk(d) /\ IsOk(a) /\ d # a /\ (LastStep \/ NoSpare(a)) /\ Do([PStep(op, d, a, 0, v, 0, pld, pplb, FALSE) EXCEPT !.pb = pb])
+PtCz == \/ \E op \in {"add_ptcz_into", "sub_ptcz_into", "mul_ptcz_into"}, d, a \in Regs, pld \in Plds, pplb \in Pplbs, v \in 0..3, kz \in {0, 0, 1} :
+             /\ IsOk(a) /\ Alloc(d) /\ d # a /\ (op = "mul_ptcz_into" => kz = 0)
+             /\ Do([PStep(op, d, a, 0, 0, v, pld, pplb, TRUE) EXCEPT !.kz = kz])
+        \/ \E op \in {"add_ptcz_assign", "sub_ptcz_assign", "mul_ptcz_assign"}, d \in Regs, pld \in Plds, pplb \in Pplbs, v \in 0..3, kz \in {0, 1} :
+             /\ IsOk(d) /\ (op = "mul_ptcz_assign" => kz = 0)
+             /\ Do([PStep(op, d, d, 0, 0, v, pld, pplb, TRUE) EXCEPT !.kz = kz])
+        \/ \E op \in {"mul_add_ptcz", "mul_sub_ptcz"}, d, a \in Regs, pld \in Plds, pplb \in Pplbs, v \in 0..3 :
+             /\ IsOk(d) /\ IsOk(a) /\ d # a /\ Do(PStep(op, d, a, 0, 0, v, pld, pplb, TRUE))
+\* plaintext-weighted sums of one or two ciphertexts
+DotPt == \E op \in {"dot_ptv", "dot_ptz", "dot_ptc", "dot_ptcz"}, d, a, c \in Regs, cnt \in 1..2, pld \in Plds, pplb \in Pplbs, v \in 0..3, pb \in {B, B - 1} :
+         /\ Alloc(d) /\ IsOk(a) /\ d # a /\ (cnt = 2 => IsOk(c) /\ d # c)
+         /\ (op # "dot_ptz" => pb = B)
+         /\ (op \in {"dot_ptv", "dot_ptz"} => LastStep \/ (NoSpare(a) /\ (cnt = 2 => NoSpare(c))))
+         /\ Do([PStep(op, d, a, 0, v % 2, v, pld, pplb, op \in {"dot_ptc", "dot_ptcz"}) EXCEPT !.bits = cnt, !.c = c, !.pb = pb, !.pmag = IF op \in {"dot_ptc", "dot_ptcz"} THEN 1 ELSE 0])
+\* align two registers on the smaller budget: the step names the register that changes
+AlignOp == \E a, b \in Regs : IsOk(a) /\ IsOk(b) /\ a # b
+             /\ Do(Step("align", IF regs[a].lb >= regs[b].lb THEN a ELSE b, a, b, 0, 0, 0, 0, 0, 0))
 FusedCt == \E op \in {"mul_add_ct", "mul_sub_ct"}, d, a, b \in Regs : IsOk(d) /\ IsOk(a) /\ IsOk(b) /\ d # a /\ d # b /\ (LastStep \/ (NoSpare(a) /\ NoSpare(b))) /\ Do(Step(op, d, a, b, 0, 0, 0, 0, 0, 0))
 FusedOp == \E op \in {"mul_add_ptv", "mul_sub_ptv", "mul_add_ptc", "mul_sub_ptc"}, d, a \in Regs, pld \in Plds, pplb \in Pplbs, v \in 0..3 :
                 /\ IsOk(d) /\ IsOk(a) /\ d # a
@@ -89,15 +111,15 @@ Finish == /\ Len(prog) = Depth /\ ~done /\ done' = TRUE
           /\ PrintT(<<"PROG", ToJson([n |-> 2 ^ LogN, b |-> B, kmax |-> KMax, be |-> be, prog |-> prog])>>)
           /\ UNCHANGED <<regs, prog, fam, be>>
 \* two-phase choice (family first, then parameters) so that every operation family is equally likely in simulation
-Fams == {"enc", "alloc", "uninto", "unassign", "rot", "pow2", "addsub", "mul", "realloc", "ptinto", "ptassign", "fused", "fusedct", "addmany", "dotct", "mulmany", "ptznx"}
+Fams == {"enc", "alloc", "uninto", "unassign", "rot", "pow2", "addsub", "mul", "realloc", "ptinto", "ptassign", "fused", "fusedct", "addmany", "dotct", "mulmany", "ptznx", "ptznx2", "ptcz", "dotpt", "align"}
 Enabled(f) == CASE f = "enc" -> ENABLED Enc [] f = "alloc" -> ENABLED AllocD [] f = "uninto" -> ENABLED UnInto [] f = "unassign" -> ENABLED UnAssign
                 [] f = "rot" -> ENABLED Rot [] f = "pow2" -> ENABLED Pow2 [] f = "addsub" -> ENABLED AddSub [] f = "mul" -> ENABLED Mul
-                [] f = "ptinto" -> ENABLED PtInto [] f = "ptassign" -> ENABLED PtAssign [] f = "fused" -> ENABLED FusedOp [] f = "fusedct" -> ENABLED FusedCt [] f = "addmany" -> ENABLED AddMany [] f = "dotct" -> ENABLED DotCt [] f = "mulmany" -> ENABLED MulMany [] f = "ptznx" -> ENABLED PtZnx [] OTHER -> ENABLED Realloc
+                [] f = "ptinto" -> ENABLED PtInto [] f = "ptassign" -> ENABLED PtAssign [] f = "fused" -> ENABLED FusedOp [] f = "fusedct" -> ENABLED FusedCt [] f = "addmany" -> ENABLED AddMany [] f = "dotct" -> ENABLED DotCt [] f = "mulmany" -> ENABLED MulMany [] f = "ptznx" -> ENABLED PtZnx [] f = "ptznx2" -> ENABLED PtZnx2 [] f = "ptcz" -> ENABLED PtCz [] f = "dotpt" -> ENABLED DotPt [] f = "align" -> ENABLED AlignOp [] OTHER -> ENABLED Realloc
 Pick == /\ fam = "" /\ Len(prog) >= 2 /\ Len(prog) < Depth /\ \E f \in Fams : Enabled(f) /\ fam' = f /\ UNCHANGED <<regs, prog, done, be>>
 DoFam == /\ fam # ""
          /\ CASE fam = "enc" -> Enc [] fam = "alloc" -> AllocD [] fam = "uninto" -> UnInto [] fam = "unassign" -> UnAssign
               [] fam = "rot" -> Rot [] fam = "pow2" -> Pow2 [] fam = "addsub" -> AddSub [] fam = "mul" -> Mul
-              [] fam = "ptinto" -> PtInto [] fam = "ptassign" -> PtAssign [] fam = "fused" -> FusedOp [] fam = "fusedct" -> FusedCt [] fam = "addmany" -> AddMany [] fam = "dotct" -> DotCt [] fam = "mulmany" -> MulMany [] fam = "ptznx" -> PtZnx [] OTHER -> Realloc
+              [] fam = "ptinto" -> PtInto [] fam = "ptassign" -> PtAssign [] fam = "fused" -> FusedOp [] fam = "fusedct" -> FusedCt [] fam = "addmany" -> AddMany [] fam = "dotct" -> DotCt [] fam = "mulmany" -> MulMany [] fam = "ptznx" -> PtZnx [] fam = "ptznx2" -> PtZnx2 [] fam = "ptcz" -> PtCz [] fam = "dotpt" -> DotPt [] fam = "align" -> AlignOp [] OTHER -> Realloc
 Next == \/ /\ Len(prog) < 2 /\ fam = "" /\ Enc
         \/ Pick \/ DoFam
         \/ Finish
